@@ -179,6 +179,7 @@ def check(rep, prop, tier, seed, replay=None):
     rc = raw_cases(rng, thorough)
     raw_bad = raw_check(rep, prop, exe, rc)
     cir_vs_real(rep, prop, exe, rc, 1200 if thorough else 260)
+    c_text_accessors(rep, prop, spec, exe, rng)
     cbmc_all_inputs(rep, prop, spec, thorough)
     pipeline.report_proof_failures(rep, prop, res, diff_groups)
     # ---- evidence ----------------------------------------------------------------------
@@ -271,6 +272,65 @@ def cbmc_all_inputs(rep, prop, spec, thorough):
                                   "statement": "for all buffer contents and all 64-bit values: result/stored bits = wire bits of the field, nothing else changes",
                                   "cmd": "cbmc -DQ=q -DOFF=o -DBITS=b -I /repo/include harness/cbmc/utils_all_inputs.c /repo/src/avtp/Utils.c --unwind 400 --unwinding-assertions --no-standard-checks [--big-endian -D__BYTE_ORDER__=__ORDER_BIG_ENDIAN__]"}
     return len(results) - n_ok
+
+
+def c_text_accessors(rep, prop, spec, exe, rng):
+    """EVERY dedicated getter (C01) / setter (C02) / current initialiser (C04) of every format: the
+    serialised C text (Gen/Cir.lean, with the regenerated tables as read-only data) run by the Lean C
+    semantics vs the compiled function on a random header — the correspondence check of the serialiser +
+    semantics for the functions the accessor-level code theorems (Refine/Accessors*.lean) speak about."""
+    import cirrun
+    import pipeline
+    gen = pipeline.translate()
+    if gen.get("failed") or gen.get("cir", {}).get("failed"):
+        return
+    ok, log = common.lake_build(["O1722.Gen.Cir", "O1722.Gen.Data", "O1722.CSem.Eval"])
+    if not ok:
+        return
+    outside = {o[1] for o in gen.get("cir", {}).get("outside", [])}
+    lines, cs, meta = [], common.Cases(), []
+    for f in spec["formats"]:
+        H = f["headerLen"]
+        if prop == "C04":
+            fn = f.get("initFn")
+            if not fn or fn in outside:
+                continue
+            bg = bytes(rng.getrandbits(8) for _ in range(H + 4))
+            lines.append((fn, [65536 + 2], None, bg, [], f["file"]))
+            cs.add(["buf a " + hexs(bg), "init a 2 %s c" % f["name"], "dump a"])
+            meta.append((f["name"], fn, "init"))
+            continue
+        for i, fld in enumerate(f["fields"]):
+            fn = fld["getter"] if prop == "C01" else fld["setter"]
+            if not fn or fn in outside:
+                continue
+            bg = bytes(rng.getrandbits(8) for _ in range(H + 4))
+            if prop == "C01":
+                lines.append((fn, [65536 + 2], None, bg, [], f["file"]))
+                cs.add(["buf a " + hexs(bg), "get a 2 %s %d d" % (f["name"], i)])
+            else:
+                v = rng.getrandbits(max(1, min(fld["width"], 64)))
+                lines.append((fn, [65536 + 2, v], None, bg, [], f["file"]))
+                cs.add(["buf a " + hexs(bg), "set a 2 %s %d d %d" % (f["name"], i, v), "dump a"])
+            meta.append((f["name"], fn, fld["enum"]))
+    res = cirrun.run_lines(lines, "cirrun_acc_" + prop)
+    rcode, c_out, err = common.run_c(exe, cs.render())
+    got = common.split_cases(c_out)
+    nbad = 0
+    for k, (fmt, fn, what) in enumerate(meta):
+        cl = [x for x in got.get(k, []) if not x.startswith("r ")]
+        if prop == "C01":
+            ok_ = cl[:1] == ["v " + res[k][0]]
+        else:
+            ok_ = bool(cl) and cl[-1].split()[-1] == res[k][1]
+        if not ok_:
+            nbad += 1
+            rep.violation("%s:c-text-vs-real:%s" % (fmt, fn),
+                          {"kind": "serialised-C-text-under-the-Lean-C-semantics-differs-from-the-compiled-code", "function": fn,
+                           "ops": cs.cases[k], "observed_real_code": got.get(k), "c_text_under_CSem": list(res[k])})
+    rep.cov["c_text_vs_real_accessors"] = {"functions": len(meta), "disagreements": nbad,
+                                           "what": "every dedicated %s of every format: Gen/Cir.lean interpreted by CSem/Eval.lean vs the compiled function, random header"
+                                                   % {"C01": "getter", "C02": "setter", "C04": "current-API initialiser"}[prop]}
 
 
 def cir_vs_real(rep, prop, exe, rc, n):
